@@ -34,26 +34,18 @@ class C04(C01):
         cases = cases[:n]
         # bias: rewrite a share of the plain chops into size-preserving ones
         for c in cases:
+            # (corner noise below the merging tolerance makes edge lengths differ by 1e-7: the simple/edge flag is then
+            # decided by the library's float tolerance, which the exact model does not have — C02's stream keeps it)
+            c["asm"].pop("noise", None)
             for ch in c["chops"]:
                 if len(ch["calls"]) == 1 and rng.random() < 0.5:
                     kw = ch["calls"][0]
-                    if set(kw) == {"count"}:
+                    if set(kw) == {"count"} and kw["count"] >= 2:  # (one cell with a size: C03's subject and known finding)
                         end = rng.choice(["start_size", "end_size"])
                         ch["calls"][0] = {"count": kw["count"], end: rng.choice([0.02, 0.03, 0.04]), "preserve": end}
         # stacks chopped with one Stack.chop call (oracle only: no model request)
         for _ in range(12 if tier == "quick" else 150):
-            end = rng.choice(["start_size", "end_size"])
-            cases.append(
-                {
-                    "kind": "stack",
-                    "nx": rng.randint(1, 3),
-                    "ny": rng.randint(1, 2),
-                    "tiers": rng.randint(2, 3),
-                    "shift": [rng.choice([0.0, 0.2]), rng.choice([0.0, -0.1]), rng.choice([0.6, 1.0, 1.7])],
-                    "scale": rng.choice([0.6, 0.8, 1.25, 1.5]),
-                    "chop": {"count": rng.randint(4, 9), "c2c_expansion": rng.choice([0.85, 1.1, 1.2]), "preserve": end},
-                }
-            )
+            cases.append(pc.gen_stack_case(rng))
         return cases
 
     def run_impl(self, case: dict) -> Any:
@@ -82,22 +74,29 @@ class C04(C01):
         oc = impl["outcome"]
         if oc == "hang":
             return [{"site": "Mesh.write:hang", "what": "write did not return within the time limit"}]
+        sec = impl.get("second") or {}
+        th = impl.get("third") or {}
+        # whatever happened before: a dictionary written by a later write of the same mesh (after a refusal, after vertex
+        # moves, after further chops) describes the same cell sizes on shared edges
+        if sec.get("outcome") == "ok":
+            for v in pc.oracle_sizes({"hex": sec["hex"]}):
+                v["site"] += ":second-write"
+                out.append(v)
+        if th.get("outcome") == "ok":
+            for v in pc.oracle_sizes({"hex": th["hex"]}):
+                v["site"] += ":after-late-chops"
+                out.append(v)
         if oc != "ok":
             if oc == "ValueError" and not (impl.get("unrealisable") or impl.get("extreme")):
                 out.append({"site": "Mesh.write:unexpected-ValueError", "what": impl.get("message")})
             return out
         out += pc.oracle_sizes(impl)
         out += pc.oracle_preserve(case, impl)
-        # a second export of the same mesh describes the same cell sizes
-        sec = impl.get("second") or {}
+        # a second export of the same mesh honours the preserved sizes as well — on the moved edges when vertices were moved
         if sec.get("outcome") == "ok":
-            for v in pc.oracle_sizes({"hex": sec["hex"]}):
+            for v in pc.oracle_preserve(case, dict(impl, hex=sec["hex"]), vertices=sec.get("vertices") if sec.get("stretched") else None):
                 v["site"] += ":second-write"
                 out.append(v)
-            if not sec.get("stretched"):
-                for v in pc.oracle_preserve(case, dict(impl, hex=sec["hex"])):
-                    v["site"] += ":second-write"
-                    out.append(v)
         # 'simple' only if the four edges really have equal gradings: decode through the internals
         it = impl["internals"]
         for b, hx in enumerate(impl["hex"]):
